@@ -34,6 +34,9 @@ TimeStr(t) ==
   CASE t.s = 1700000000 /\ t.off = 0 -> "2023-11-14T22:13:20Z"
     [] t.s = 1700003600 /\ t.off = 7200 -> "2023-11-15T01:13:20+02:00"
     [] t.s = 1600000000 -> "2020-09-13T05:26:40-07:00"
+    [] t.s = 0 - 1000000000 -> "1938-04-24T22:13:20Z"
+    [] t.s = 2147483647 -> "2038-01-19T04:14:07+01:00"
+    [] t.s = 1 -> "1970-01-01T00:00:01Z"
     [] OTHER -> "2023-11-14T22:13:21Z"
 DurStr(d) == CASE d.s = 5 -> "PT5S" [] d.s = 0 - 5 -> "-PT5S" [] d.s = 3725 -> "PT1H2M5S" [] d.s = 86400 -> "P1D" [] d.s = 0 - 259200 -> "-P3D"
                [] d.s = 90000 -> "P1DT1H" [] d.s = 2419200 -> "P28D" [] d.s = 0 - 2505600 -> "-P29D" [] d.s = 29376000 -> "P340D"
